@@ -308,6 +308,54 @@ def gen_manifest_path() -> str:
             f"Definition g_manifest_path (rank : Z) (logical_path : pystr) : pystr := {st.s(subs[0].targets[0].slice)}.\n")
 
 
+# ------------------------------------------------------------------------------- the async flag, from the API to the stager
+def gen_async_flow() -> str:
+    """every hop that hands `is_async_snapshot` on, as one boolean per hop (true = the flag is passed unchanged).
+    A hop is (file, enclosing function, callee suffix); ALL calls of the callee inside the function must pass the
+    keyword `is_async_snapshot=<the function's own parameter>` and the function must not rebind that name."""
+    def hop(rel, cls, fn_name, callee, const=None):
+        mod = parse(rel)
+        scope = find_class(mod, cls) if cls else mod
+        fn = find_func(scope, fn_name)
+        where = f"{rel}:{cls + '.' if cls else ''}{fn_name}"
+        calls = [n for n in ast.walk(fn) if isinstance(n, ast.Call) and src(n.func).endswith(callee)]
+        if not calls:
+            raise TranslateError(where, f"no call of {callee}")
+        ok = True
+        for c in calls:
+            kw = {k.arg: k.value for k in c.keywords}
+            v = kw.get("is_async_snapshot")
+            if const is not None:
+                ok = ok and isinstance(v, ast.Constant) and v.value is const
+            else:
+                ok = ok and isinstance(v, ast.Name) and v.id == "is_async_snapshot"
+        if const is None:
+            params = [a.arg for a in fn.args.args + fn.args.kwonlyargs]
+            ok = ok and "is_async_snapshot" in params
+            for n in ast.walk(fn):
+                if isinstance(n, (ast.Assign, ast.AugAssign, ast.AnnAssign)):
+                    tg = n.targets if isinstance(n, ast.Assign) else [n.target]
+                    if any(isinstance(t, ast.Name) and t.id == "is_async_snapshot" for t in tg):
+                        ok = False
+        return where, callee, ok
+    hops = [hop("torchsnapshot/snapshot.py", "Snapshot", "async_take", "_take_impl", const=True),
+            hop("torchsnapshot/snapshot.py", "Snapshot", "take", "_take_impl", const=False),
+            hop("torchsnapshot/snapshot.py", "Snapshot", "_take_impl", "prepare_write"),
+            hop("torchsnapshot/io_preparers/chunked_tensor.py", "ChunkedTensorIOPreparer", "prepare_write", "TensorIOPreparer.prepare_write"),
+            hop("torchsnapshot/io_preparers/sharded_tensor.py", "ShardedTensorIOPreparer", "prepare_write", "TensorIOPreparer.prepare_write"),
+            hop("torchsnapshot/io_preparers/dtensor.py", "DTensorIOPreparer", "prepare_write", "TensorIOPreparer.prepare_write"),
+            hop("torchsnapshot/io_preparers/tensor.py", "TensorIOPreparer", "prepare_write", "TensorBufferStager")]
+    # TensorBufferStager.__init__ stores the flag
+    init = find_func(find_class(parse("torchsnapshot/io_preparers/tensor.py"), "TensorBufferStager"), "__init__")
+    stores = [src(n) for n in init.body if isinstance(n, ast.Assign) and src(n.targets[0]) == "self.is_async_snapshot"]
+    hops.append(("torchsnapshot/io_preparers/tensor.py:TensorBufferStager.__init__", "self.is_async_snapshot", stores == ["self.is_async_snapshot = is_async_snapshot"]))
+    # (the hops inside io_preparer.prepare_write are checked by gen_write_kind, which fails closed)
+    lines = "\n".join(f"  (* {w} -> {c} *) {'true' if ok else 'false'}" + (";" if i < len(hops) - 1 else "") for i, (w, c, ok) in enumerate(hops))
+    return ("(* is_async_snapshot from Snapshot.async_take (True) / take (False) down to TensorBufferStager: one boolean per hop,\n"
+            "   true = every call of the callee passes the caller's own, never rebound, parameter (resp. the constant) *)\n"
+            "Definition g_async_flag_hops : list bool := [\n" + lines + "\n].\n")
+
+
 def generate() -> dict[str, str]:
     text = ("(* GENERATED by translator/gen_dispatch.py from io_preparer.py, dtensor_utils.py, manifest.py, batcher.py, snapshot.py,\n"
             "   io_preparers/chunked_tensor.py, io_preparers/sharded_tensor.py - do not edit. *)\n"
@@ -315,5 +363,5 @@ def generate() -> dict[str, str]:
             + "\n".join([gen_storage_path(), gen_is_sharded(), gen_entry_parent(), gen_write_kind(), gen_read_kind(),
                          piece_location("torchsnapshot/io_preparers/chunked_tensor.py", "ChunkedTensorIOPreparer", "chunk.offsets", "g_chunk_location"),
                          piece_location("torchsnapshot/io_preparers/sharded_tensor.py", "ShardedTensorIOPreparer", "offsets", "g_shard_location"),
-                         gen_slab_location(), gen_manifest_path()]))
+                         gen_slab_location(), gen_manifest_path(), gen_async_flow()]))
     return {"DispatchGen": text}
